@@ -109,6 +109,20 @@ class C14Episode(Episode):
                     return
                 h[hook] = (o, f)
             self.probes['hooks_replaced_at_run_time'] += 1
+        if c.get('rehook_bad'):
+            # a replacement that is refused (the name cannot be imported):
+            # the installed hook stays, and so does its flag
+            for hook, f in sorted(c['rehook_bad'].items()):
+                r = w.call('set', {'name': name, 'options': {
+                    'hooks.' + hook: 'no.such.module.fn' +
+                    (',true' if f else '')}}, waiting=True)
+                if isinstance(r.reply, dict) and \
+                        r.reply.get('status') == 'ok':
+                    self.viol('bad_hook_accepted', 'set hooks.%s = '
+                              'no.such.module.fn answered ok' % hook,
+                              once='rehook_bad')
+                    return
+            self.probes['hook_replacements_refused'] += 1
         if c['trigger'] == 'start':
             w.call('start', {'name': name}, waiting=True)
         elif c['trigger'] == 'restart':
@@ -359,6 +373,13 @@ class C14(Prop):
                         'hooks': {hook: (out, INI_FLAGS[flag])},
                         'ini_flags': {hook: flag}, 'beh': 'obedient',
                         'np': 2, 'trigger': 'start'}})
+        # a replacement that is refused leaves hook and flag as they were
+        for hook in START_HOOKS:
+            for flag in (False, True):
+                cases.append({'c14': {
+                    'kind': 'start', 'hooks': {hook: ('raise', flag)},
+                    'rehook_bad': {hook: not flag}, 'beh': 'obedient',
+                    'np': 2, 'trigger': 'start', 'none': True}})
         # two watchers in one daemon, the same hook raising in both, the
         # ignore-failure flag set for one of them only (both orders)
         for hook in START_HOOKS:
